@@ -9,6 +9,8 @@
 #include "gen_scale.h"
 #include "ambient.h"
 #include <climits>
+#include <cstdlib>
+#include <optional>
 
 using vrt::Rng;
 using vrt::sfmt;
@@ -95,26 +97,159 @@ static void left_right_check(const vrt::Box<ST::string> &st, const S &s, size_t 
     vrt::count("left_right.calls", 2);
     if (k > s.size() && k < 2 * s.size()) vrt::count("right.n_between_size_and_2size");
 }
-// trim_left / trim_right / trim of s with the character set cs (nullptr: the default argument, i.e. white space)
-static void trim_check(const S &s, const char *cs, S *trimmed = nullptr)
+// trim_left / trim_right / trim of the object st (which holds s) with the character set cs (nullptr: the default argument, i.e. white
+// space).  `held`: the character set as the caller holds it (NUL-terminated, same bytes as cs) when the caller manages that storage
+// itself, otherwise an exact-size copy is made here.  `order` (0..5) permutes the three calls; 0 is left, right, both.
+static void trim_ops(const vrt::Box<ST::string> &st, const S &s, const char *cs, const char *held = nullptr, unsigned order = 0, S *trimmed = nullptr)
 {
     const S set = cs ? S(cs) : S(" \t\r\n");
-    vrt::Box<ST::string> st(vrt::mk(s));
-    vrt::Exact<char> cset(set.data(), set.size(), true);
-    S got, args = sfmt("charset=%s%s", show(set).c_str(), cs ? "" : "(default)");
-    if (call("trim_left", s, args, [&] { return cs ? st->trim_left(cset.data()) : st->trim_left(); }, got))
-        expect("trim_left", s, args, got, ref::trim_left(s, set));
-    if (call("trim_right", s, args, [&] { return cs ? st->trim_right(cset.data()) : st->trim_right(); }, got))
-        expect("trim_right", s, args, got, ref::trim_right(s, set));
-    if (call("trim", s, args, [&] { return cs ? st->trim(cset.data()) : st->trim(); }, got)) {
-        expect("trim", s, args, got, ref::trim(s, set));
-        if (got.size() == s.size()) vrt::count("trim.nothing_to_trim");
-        if (got.empty() && !s.empty()) vrt::count("trim.everything_trimmed");
+    std::optional<vrt::Exact<char>> cset;
+    if (!held) { cset.emplace(set.data(), set.size(), true); held = cset->data(); }
+    S got, got_trim, args = sfmt("charset=%s%s", show(set).c_str(), cs ? "" : "(default)");
+    static const unsigned char perms[6][3] = {{0, 1, 2}, {2, 1, 0}, {1, 2, 0}, {2, 0, 1}, {1, 0, 2}, {0, 2, 1}};
+    for (unsigned char op : perms[order % 6]) {
+        if (op == 0) {
+            if (call("trim_left", s, args, [&] { return cs ? st->trim_left(held) : st->trim_left(); }, got))
+                expect("trim_left", s, args, got, ref::trim_left(s, set));
+        } else if (op == 1) {
+            if (call("trim_right", s, args, [&] { return cs ? st->trim_right(held) : st->trim_right(); }, got))
+                expect("trim_right", s, args, got, ref::trim_right(s, set));
+        } else if (call("trim", s, args, [&] { return cs ? st->trim(held) : st->trim(); }, got)) {
+            expect("trim", s, args, got, ref::trim(s, set));
+            if (got.size() == s.size()) vrt::count("trim.nothing_to_trim");
+            if (got.empty() && !s.empty()) vrt::count("trim.everything_trimmed");
+            got_trim = got;
+        }
     }
     if (vrt::str_of(*st) != s) vrt::violation("C08:trim:subject-changed", s.size() <= 96 ? show(s) : scale::brief(s));
     vrt::count("trim.calls", 3);
     vrt::distinct(vrt::fnv1a(set.data(), set.size(), vrt::fnv1a(s.data(), s.size(), 13)));
-    if (trimmed) *trimmed = got;
+    if (trimmed) *trimmed = got_trim;
+}
+static void trim_check(const S &s, const char *cs, S *trimmed = nullptr)
+{
+    vrt::Box<ST::string> st(vrt::mk(s));
+    trim_ops(st, s, cs, nullptr, 0, trimmed);
+}
+
+// ---- before_first / after_first / before_last / after_last -------------------------------------------------------
+enum { F_STR, F_CSTR, F_CHAR8, F_CHAR, N_FORMS };
+static const char *const FORM_NAMES[N_FORMS] = {"ST::string", "const char*", "const char8_t*", "char"};
+struct SepOp {
+    const char *name;
+    S (*reff)(const S &, const S &, bool);
+};
+static const SepOp SEP_OPS[4] = {{"before_first", ref::before_first}, {"after_first", ref::after_first},
+                                 {"before_last", ref::before_last}, {"after_last", ref::after_last}};
+
+// one call: operation `which` of the object st (holding s) with the separator sep given in the form `form` (ssep: as an ST::string,
+// held: the same bytes NUL-terminated as the caller holds them), compared with `want`
+static bool sep_one(const vrt::Box<ST::string> &st, const S &s, const S &sep, const ST::string &ssep, const char *held, bool ci, int which, int form,
+                    const S &want, S &got)
+{
+    const ST::case_sensitivity_t cs = ci ? ST::case_insensitive : ST::case_sensitive;
+    const char *name = SEP_OPS[which].name;
+    const S args = sfmt("sep=%s ci=%d form=%s", show(sep).c_str(), ci, FORM_NAMES[form]);
+    const char8_t *c8 = reinterpret_cast<const char8_t *>(held);
+    const char ch = sep.empty() ? '\0' : sep[0];
+    const bool ok = call(name, s, args, [&]() -> ST::string {
+        switch (form) {
+        case F_STR:
+            switch (which) {
+            case 0: return st->before_first(ssep, cs);
+            case 1: return st->after_first(ssep, cs);
+            case 2: return st->before_last(ssep, cs);
+            default: return st->after_last(ssep, cs);
+            }
+        case F_CSTR:
+            switch (which) {
+            case 0: return st->before_first(held, cs);
+            case 1: return st->after_first(held, cs);
+            case 2: return st->before_last(held, cs);
+            default: return st->after_last(held, cs);
+            }
+        case F_CHAR8:
+            switch (which) {
+            case 0: return st->before_first(c8, cs);
+            case 1: return st->after_first(c8, cs);
+            case 2: return st->before_last(c8, cs);
+            default: return st->after_last(c8, cs);
+            }
+        default:
+            switch (which) {
+            case 0: return st->before_first(ch, cs);
+            case 1: return st->after_first(ch, cs);
+            case 2: return st->before_last(ch, cs);
+            default: return st->after_last(ch, cs);
+            }
+        }
+    }, got);
+    if (ok) expect(name, s, args, got, want);
+    vrt::count("sep.calls");
+    if (form == F_CSTR) vrt::count("sep.form.cstr");
+    if (form == F_CHAR) vrt::count("sep.form.char");
+    return ok;
+}
+
+// the order in which sep_ops makes its calls: the historic one (operation by operation, each through every form), or shuffled, with
+// one (operation, form) pair forced to the front / to the back
+struct SepOrder {
+    uint64_t shuffle = 0;
+    int first_op = -1, first_form = -1, last_op = -1, last_form = -1;
+};
+// every operation x every form that can carry the separator, on the object st (holding s); `held`: the separator as the caller holds
+// it (same bytes as sep, NUL-terminated) when the caller manages that storage itself
+static void sep_ops(const vrt::Box<ST::string> &st, const S &s, const S &sep, bool ci, const char *held = nullptr, const SepOrder *ord = nullptr)
+{
+    vrt::Box<ST::string> ssep(vrt::mk(sep));
+    const bool cstr_ok = sep.find('\0') == S::npos;
+    const bool char_ok = sep.size() == 1;
+    std::optional<vrt::Exact<char>> csep;
+    if (!held) { csep.emplace(sep.data(), sep.size(), true); held = csep->data(); }
+    std::vector<std::pair<int, int>> plan;
+    for (int which = 0; which < 4; ++which) {
+        plan.emplace_back(which, F_STR);
+        if (cstr_ok) { plan.emplace_back(which, F_CSTR); plan.emplace_back(which, F_CHAR8); }
+        if (char_ok) plan.emplace_back(which, F_CHAR);
+    }
+    if (ord) {
+        Rng sr(ord->shuffle);
+        for (size_t k = plan.size(); k > 1; --k) std::swap(plan[k - 1], plan[sr.below(k)]);
+        for (size_t k = 0; k < plan.size(); ++k)
+            if (plan[k].first == ord->first_op && plan[k].second == ord->first_form) { std::rotate(plan.begin(), plan.begin() + k, plan.begin() + k + 1); break; }
+        for (size_t k = 0; k < plan.size(); ++k)
+            if (plan[k].first == ord->last_op && plan[k].second == ord->last_form) { std::rotate(plan.begin() + k, plan.begin() + k + 1, plan.end()); break; }
+    }
+    S want[4], res[4], got;
+    for (int which = 0; which < 4; ++which) want[which] = SEP_OPS[which].reff(s, sep, ci);
+    for (const auto &pf : plan) {
+        sep_one(st, s, sep, *ssep, held, ci, pf.first, pf.second, want[pf.first], got);
+        if (pf.second == F_STR) res[pf.first] = got;
+    }
+    long f = ref::find(s, sep, 0, ci);
+    if (f >= 0) {
+        vrt::count("sep.found");
+        // before + matched text + after reassembles the original
+        S matched_first = s.substr(res[0].size(), sep.size());
+        if (res[0] + matched_first + res[1] != s || !ref::eq_at(s, res[0].size(), sep, ci))
+            vrt::violation("C08:before_after_first:reassembly", s.size() <= 96
+                ? sfmt("subject=%s sep=%s ci=%d before=%s after=%s", show(s).c_str(), show(sep).c_str(), ci, show(res[0]).c_str(), show(res[1]).c_str())
+                : sfmt("subject: %s sep=%s ci=%d before: %s after: %s", scale::brief(s).c_str(), show(sep).c_str(), ci, scale::brief(res[0]).c_str(), scale::brief(res[1]).c_str()));
+        S matched_last = s.substr(std::min(res[2].size(), s.size()), sep.size());
+        if (res[2] + matched_last + res[3] != s || !ref::eq_at(s, res[2].size(), sep, ci))
+            vrt::violation("C08:before_after_last:reassembly", s.size() <= 96
+                ? sfmt("subject=%s sep=%s ci=%d before=%s after=%s", show(s).c_str(), show(sep).c_str(), ci, show(res[2]).c_str(), show(res[3]).c_str())
+                : sfmt("subject: %s sep=%s ci=%d before: %s after: %s", scale::brief(s).c_str(), show(sep).c_str(), ci, scale::brief(res[2]).c_str(), scale::brief(res[3]).c_str()));
+        vrt::count("reassembly.checked");
+    } else {
+        vrt::count("sep.absent");
+    }
+    if (sep.size() >= 2) vrt::count("sep.len2plus");
+    if (sep.empty()) vrt::count("sep.empty");
+    vrt::distinct(vrt::fnv_u64(ci, vrt::fnv1a(sep.data(), sep.size(), vrt::fnv1a(s.data(), s.size(), 14))));
+    if (vrt::want_sample("before_after") && f > 0 && sep.size() >= 2)
+        vrt::sample("before_after", sfmt("subject=%s sep=%s ci=%d -> before_first=%s after_first=%s before_last=%s after_last=%s",
+                                         show(s).c_str(), show(sep).c_str(), ci, show(res[0]).c_str(), show(res[1]).c_str(), show(res[2]).c_str(), show(res[3]).c_str()));
 }
 
 static std::vector<S> subjects()
@@ -204,6 +339,71 @@ static bool alias_of_member(Rng &r, const S &set, bool high_only, char &out)
     return false;
 }
 
+// ---------------------------------------------------------------- helpers of the same_storage / soak / alignment phases
+// Caller-side storage: n bytes and a NUL in a heap block that ends right behind the NUL and whose data starts at an address congruent
+// to `align` modulo 16 (the bytes in front of it, if any, belong to the block and repeat the data, so an under-read changes a
+// result).  The content is rewritten in place: same address, same length, other bytes.
+struct Placed {
+    char *base, *p;
+    size_t n, lead;
+    Placed(size_t len, unsigned align) : n(len), lead(align % 16)
+    {
+        void *m = nullptr;
+        if (posix_memalign(&m, 16, lead + len + 1) != 0 || !m) { fprintf(stderr, "vrt: out of memory\n"); _exit(98); }
+        base = static_cast<char *>(m);
+        p = base + lead;
+        memset(base, 0x80, lead);
+        p[len] = '\0';
+    }
+    Placed(const Placed &) = delete;
+    Placed &operator=(const Placed &) = delete;
+    ~Placed() { free(base); }
+    const char *write(const S &s)
+    {
+        memcpy(p, s.data(), n);
+        for (size_t i = 0; i < lead && n; ++i) base[lead - 1 - i] = s[n - 1 - i % n];
+        return p;
+    }
+};
+static bool is_letter(char c) { return (c >= 'a' && c <= 'z') || (c >= 'A' && c <= 'Z'); }
+static char other_case(char c) { return is_letter(c) ? static_cast<char>(c ^ 0x20) : c; }
+// a byte of the same kind (letter / other) as c that differs from it by more than letter case
+static char different_byte(Rng &r, char c)
+{
+    if (is_letter(c)) return static_cast<char>(((c & 0x20) ? 'a' : 'A') + (ref::fold(static_cast<unsigned char>(c)) - 'a' + 1 + r.below(25)) % 26);
+    static const char other[] = "-_#+";
+    for (;;) { const char d = other[r.below(4)]; if (d != c) return d; }
+}
+enum { NM_HARD, NM_CASE, NM_CASE_THEN_HARD, NM_KINDS };
+// a copy of sep that differs from it at index j: by more than letter case (NM_HARD), by letter case only (NM_CASE), or by letter case at
+// j and by more than case at a later index (NM_CASE_THEN_HARD); `mixed`: other letters change case as well.  false: not possible at j.
+static bool near_miss(Rng &r, const S &sep, size_t j, unsigned kind, bool mixed, S &out)
+{
+    out = sep;
+    size_t j2 = sep.size();
+    if (kind == NM_HARD) out[j] = different_byte(r, sep[j]);
+    else {
+        if (!is_letter(sep[j])) return false;
+        out[j] = other_case(sep[j]);
+        if (kind == NM_CASE_THEN_HARD) {
+            if (j + 1 >= sep.size()) return false;
+            j2 = r.chance(1, 3) ? sep.size() - 1 : j + 1 + r.below(sep.size() - j - 1);
+            out[j2] = different_byte(r, sep[j2]);
+        }
+    }
+    if (mixed)
+        for (size_t k = 0; k < sep.size(); ++k)
+            if (k != j && k != j2 && r.chance(1, 4)) out[k] = other_case(out[k]);
+    return true;
+}
+// the letters of n in random case
+static S random_case(Rng &r, const S &n)
+{
+    S o(n);
+    for (auto &c : o) if (r.chance(1, 2)) c = other_case(c);
+    return o;
+}
+
 static void body()
 {
     ambient::enable(3);
@@ -291,95 +491,7 @@ static void body()
     // ---- 4. before/after first/last: exhaustive small sweep + random
     auto sep_case = [&](const S &s, const S &sep, bool ci) {
         vrt::Box<ST::string> st(vrt::mk(s));
-        vrt::Box<ST::string> ssep(vrt::mk(sep));
-        ST::case_sensitivity_t cs = ci ? ST::case_insensitive : ST::case_sensitive;
-        bool cstr_ok = sep.find('\0') == S::npos;
-        bool char_ok = sep.size() == 1;
-        vrt::Exact<char> csep(sep.data(), sep.size(), true);
-        struct Op {
-            const char *name;
-            S (*reff)(const S &, const S &, bool);
-            int which;
-        };
-        static const Op ops[] = {{"before_first", ref::before_first, 0}, {"after_first", ref::after_first, 1},
-                                 {"before_last", ref::before_last, 2}, {"after_last", ref::after_last, 3}};
-        S res[4];
-        for (const Op &op : ops) {
-            S want = op.reff(s, sep, ci);
-            S got, args = sfmt("sep=%s ci=%d form=ST::string", show(sep).c_str(), ci);
-            bool ok = call(op.name, s, args, [&]() -> ST::string {
-                switch (op.which) {
-                case 0: return st->before_first(*ssep, cs);
-                case 1: return st->after_first(*ssep, cs);
-                case 2: return st->before_last(*ssep, cs);
-                default: return st->after_last(*ssep, cs);
-                }
-            }, got);
-            if (ok) expect(op.name, s, args, got, want);
-            res[op.which] = got;
-            vrt::count("sep.calls");
-            if (cstr_ok) {
-                args = sfmt("sep=%s ci=%d form=const char*", show(sep).c_str(), ci);
-                ok = call(op.name, s, args, [&]() -> ST::string {
-                    switch (op.which) {
-                    case 0: return st->before_first(csep.data(), cs);
-                    case 1: return st->after_first(csep.data(), cs);
-                    case 2: return st->before_last(csep.data(), cs);
-                    default: return st->after_last(csep.data(), cs);
-                    }
-                }, got);
-                if (ok) expect(op.name, s, args, got, want);
-                vrt::count("sep.calls");
-                vrt::count("sep.form.cstr");
-                args = sfmt("sep=%s ci=%d form=const char8_t*", show(sep).c_str(), ci);
-                const char8_t *c8 = reinterpret_cast<const char8_t *>(csep.data());
-                ok = call(op.name, s, args, [&]() -> ST::string {
-                    switch (op.which) {
-                    case 0: return st->before_first(c8, cs);
-                    case 1: return st->after_first(c8, cs);
-                    case 2: return st->before_last(c8, cs);
-                    default: return st->after_last(c8, cs);
-                    }
-                }, got);
-                if (ok) expect(op.name, s, args, got, want);
-                vrt::count("sep.calls");
-            }
-            if (char_ok) {
-                char ch = sep[0];
-                args = sfmt("sep=%s ci=%d form=char", show(sep).c_str(), ci);
-                ok = call(op.name, s, args, [&]() -> ST::string {
-                    switch (op.which) {
-                    case 0: return st->before_first(ch, cs);
-                    case 1: return st->after_first(ch, cs);
-                    case 2: return st->before_last(ch, cs);
-                    default: return st->after_last(ch, cs);
-                    }
-                }, got);
-                if (ok) expect(op.name, s, args, got, want);
-                vrt::count("sep.calls");
-                vrt::count("sep.form.char");
-            }
-        }
-        long f = ref::find(s, sep, 0, ci);
-        if (f >= 0) {
-            vrt::count("sep.found");
-            // before + matched text + after reassembles the original
-            S matched_first = s.substr(res[0].size(), sep.size());
-            if (res[0] + matched_first + res[1] != s || !ref::eq_at(s, res[0].size(), sep, ci))
-                vrt::violation("C08:before_after_first:reassembly", sfmt("subject=%s sep=%s ci=%d before=%s after=%s", show(s).c_str(), show(sep).c_str(), ci, show(res[0]).c_str(), show(res[1]).c_str()));
-            S matched_last = s.substr(res[2].size(), sep.size());
-            if (res[2] + matched_last + res[3] != s || !ref::eq_at(s, res[2].size(), sep, ci))
-                vrt::violation("C08:before_after_last:reassembly", sfmt("subject=%s sep=%s ci=%d before=%s after=%s", show(s).c_str(), show(sep).c_str(), ci, show(res[2]).c_str(), show(res[3]).c_str()));
-            vrt::count("reassembly.checked");
-        } else {
-            vrt::count("sep.absent");
-        }
-        if (sep.size() >= 2) vrt::count("sep.len2plus");
-        if (sep.empty()) vrt::count("sep.empty");
-        vrt::distinct(vrt::fnv_u64(ci, vrt::fnv1a(sep.data(), sep.size(), vrt::fnv1a(s.data(), s.size(), 14))));
-        if (vrt::want_sample("before_after") && f > 0 && sep.size() >= 2)
-            vrt::sample("before_after", sfmt("subject=%s sep=%s ci=%d -> before_first=%s after_first=%s before_last=%s after_last=%s",
-                                             show(s).c_str(), show(sep).c_str(), ci, show(res[0]).c_str(), show(res[1]).c_str(), show(res[2]).c_str(), show(res[3]).c_str()));
+        sep_ops(st, s, sep, ci);
     };
 
     {
@@ -609,6 +721,454 @@ static void body()
             if (subject_len >= 1u << 20) vrt::count("scale.subject>=1MiB");
         });
     }
+    // ---- 7. same_storage: 3..6 contents of IDENTICAL size, one after the other in the same storage.  The object holding the subject
+    // is destroyed and its successor built right away (forced re-issue of the object block and of the heap block, see rt/vrt_st.h), the
+    // separator / character set sits in one caller-side block that is rewritten in place.  The contents share their first and last 16
+    // bytes and differ in between in ways that change the answers: the first occurrence moves to an EARLIER place while the old one
+    // stays where it was, the last one to a later place, occurrences go away, the runs to be trimmed get longer or shorter.  The calls
+    // go through the monitors of the other phases, in an order that changes from content to content; the last call on one content and
+    // the first call on its successor are a chosen pair of different operations through the same form (before_first(char) on the old
+    // one, after_first(char) on the new one ...).
+    {
+        const double sc = std::min(1.0, vrt::opt().scale);
+        vrt::require("same_storage.cases", static_cast<uint64_t>(300 * sc));
+        vrt::require("same_storage.successors", static_cast<uint64_t>(1000 * sc));
+        vrt::require("same_storage.object_at_the_same_address", static_cast<uint64_t>(600 * sc));
+        vrt::require("same_storage.heap_block_at_the_same_address", static_cast<uint64_t>(500 * sc));
+        vrt::require("same_storage.sep.first_occurrence_now_earlier_old_one_still_there", static_cast<uint64_t>(100 * sc));
+        vrt::require("same_storage.sep.last_occurrence_now_later_old_one_still_there", static_cast<uint64_t>(100 * sc));
+        vrt::require("same_storage.sep.first_call_on_successor_pairs_with_last_call_on_predecessor", static_cast<uint64_t>(500 * sc));
+        vrt::require("same_storage.sep.char_form_pair_on_subject>=256", static_cast<uint64_t>(40 * sc));
+        vrt::require("same_storage.caller_block_rewritten_in_place", static_cast<uint64_t>(1000 * sc));
+        vrt::require("same_storage.trim.chained", static_cast<uint64_t>(200 * sc));
+        static const size_t sizes[] = {6, 15, 20, 40, 64, 100, 256, 300, 1024, 1500, 4096, 5000, 16384, 70000};
+        const size_t NS = sizeof(sizes) / sizeof(sizes[0]);
+        enum { SS_SEP, SS_TRIM, SS_SEP_AGAIN, SS_SLICE, SS_KINDS };
+        vrt::phase("same_storage", vrt::tier_count(NS * SS_KINDS * 24, NS * SS_KINDS * 600), [&](uint64_t i, Rng &r) {
+            const size_t N = sizes[i % NS];
+            const unsigned kind = static_cast<unsigned>((i / NS) % SS_KINDS);
+            const size_t shared = std::min<size_t>(16, N / 4), W = N - 2 * shared;       // W: the middle, where the contents differ
+            const size_t ncontents = 3 + r.below(4);
+            const size_t mark0 = vrt::cur_mark();
+            std::optional<vrt::Box<ST::string>> st;
+            // destroy the current object and build the one holding `content` in its place
+            auto rebuild = [&](const S &content) {
+                uintptr_t prev_obj = 0, prev_data = 0;
+                if (st) {
+                    prev_obj = reinterpret_cast<uintptr_t>(st->p);
+                    prev_data = reinterpret_cast<uintptr_t>((*st)->c_str());
+                    vrt::placement_force_parks() = 4;
+                    st.reset();
+                }
+                st.emplace(vrt::mk(content));
+                vrt::placement_force_parks() = 0;
+                if (prev_obj) {
+                    vrt::count("same_storage.successors");
+                    if (reinterpret_cast<uintptr_t>(st->p) == prev_obj) vrt::count("same_storage.object_at_the_same_address");
+                    if (N >= 16 && reinterpret_cast<uintptr_t>((*st)->c_str()) == prev_data) vrt::count("same_storage.heap_block_at_the_same_address");
+                }
+            };
+            if (kind == SS_SEP || kind == SS_SEP_AGAIN) {
+                static const char *const alphas[] = {"ab", "aAbB", ":=", "iIjJ", ",;", "Kk-"};
+                static const char *const bgs[] = {"x", "xy", "xyz.", "\xe9\xeb", "@[", "x\xc3\xa9"};
+                const S al = r.pick(alphas), bg = r.pick(bgs);
+                size_t L = r.chance(1, 2) ? 1 : r.chance(2, 3) ? 2 + r.below(6) : 8 + r.below(33);
+                L = std::min(L, std::max<size_t>(1, W / 6));
+                const S sep = gen::bytes_over(r, L, al);
+                // a second separator of the same length for the same caller block: same first and last byte when long enough
+                S sep2;
+                for (int tries = 0;; ++tries) {
+                    sep2 = sep;
+                    if (L >= 3 && tries < 50) { for (size_t k = 1; k + 1 < L; ++k) sep2[k] = al[r.below(al.size())]; }
+                    else sep2 = gen::bytes_over(r, L, al);
+                    if (ref::folded(sep2) != ref::folded(sep)) break;
+                    if (tries > 200) { sep2 = S(L, '|'); break; }
+                }
+                // places where an occurrence can go (at least one background byte between two of them)
+                const size_t M = (W - L) / (L + 1) + 1, nslots = std::min<size_t>(6, M);
+                std::vector<size_t> slot;
+                while (slot.size() < nslots) {
+                    const size_t v = r.below(M);
+                    if (std::find(slot.begin(), slot.end(), v) == slot.end()) slot.push_back(v);
+                }
+                std::sort(slot.begin(), slot.end());
+                for (size_t &v : slot) v = shared + v * (L + 1);
+                // which places hold the separator, content by content
+                enum { ADD_EARLIER, ADD_LATER, DROP_FIRST, DROP_LAST, CLEAR_ALL, RANDOM_SET, NONE };
+                typedef std::vector<unsigned char> Occ;
+                auto first_of = [](const Occ &o) { for (size_t k = 0; k < o.size(); ++k) if (o[k]) return static_cast<long>(k); return -1L; };
+                auto last_of = [](const Occ &o) { for (size_t k = o.size(); k-- > 0;) if (o[k]) return static_cast<long>(k); return -1L; };
+                std::vector<Occ> occs(ncontents, Occ(nslots, 0));
+                std::vector<unsigned> trans(ncontents + 1, NONE);
+                occs[0][nslots / 2] = 1;
+                const bool earlier_first = r.chance(1, 2);
+                for (size_t c = 1; c < ncontents; ++c) {
+                    unsigned T = c == 1 ? (earlier_first ? ADD_EARLIER : ADD_LATER) : c == 2 ? (earlier_first ? ADD_LATER : ADD_EARLIER) : static_cast<unsigned>(r.below(6));
+                    Occ o;
+                    for (int tries = 0; tries < 20; ++tries) {
+                        o = occs[c - 1];
+                        const long f = first_of(o), l = last_of(o);
+                        switch (T) {
+                        case ADD_EARLIER: if (f > 0) o[r.below(static_cast<uint64_t>(f))] = 1; break;
+                        case ADD_LATER: if (l >= 0 && static_cast<size_t>(l) + 1 < nslots) o[static_cast<size_t>(l) + 1 + r.below(nslots - static_cast<size_t>(l) - 1)] = 1; break;
+                        case DROP_FIRST: if (f >= 0 && f != l) o[static_cast<size_t>(f)] = 0; break;
+                        case DROP_LAST: if (l >= 0 && f != l) o[static_cast<size_t>(l)] = 0; break;
+                        case CLEAR_ALL: std::fill(o.begin(), o.end(), 0); break;
+                        default: for (auto &x : o) x = r.chance(1, 2) ? 1 : 0; break;
+                        }
+                        if (o != occs[c - 1]) break;
+                        T = RANDOM_SET;
+                    }
+                    occs[c] = o;
+                    trans[c] = T;
+                }
+                const bool exact = r.chance(2, 3);
+                const S base = gen::bytes_over(r, N, bg);
+                vrt::Box<ST::string> ssep(vrt::mk(sep));
+                Placed held(L, static_cast<unsigned>(r.below(16)));
+                int next_op = -1, next_form = -1;
+                bool next_ci = false;
+                S got;
+                for (size_t c = 0; c < ncontents; ++c) {
+                    S s = base;
+                    if (c > 0 && r.chance(1, 2)) for (size_t k = shared; k < N - shared; ++k) s[k] = bg[r.below(bg.size())];
+                    Occ o = occs[c];
+                    if (r.chance(1, 2)) {           // the other separator somewhere as well
+                        const size_t k = r.below(nslots);
+                        if (!o[k]) o[k] = 2;
+                    }
+                    for (size_t k = 0; k < nslots; ++k) {
+                        if (!o[k]) continue;
+                        const S &piece = o[k] == 1 ? sep : sep2;
+                        s.replace(slot[k], L, exact ? piece : random_case(r, piece));
+                    }
+                    rebuild(s);
+                    vrt::cur_mark() = mark0;
+                    vrt::cur_rewind();
+                    vrt::cur_printf("same_storage: content %zu of %zu, subject %s sep=%s\n", c, ncontents, scale::brief(s).c_str(), show(sep).c_str());
+                    vrt::cur_mark_here();
+                    if (trans[c] == ADD_EARLIER) vrt::count("same_storage.sep.first_occurrence_now_earlier_old_one_still_there");
+                    if (trans[c] == ADD_LATER) vrt::count("same_storage.sep.last_occurrence_now_later_old_one_still_there");
+                    // the first call on the successor: the partner of the last call on its predecessor
+                    if (next_op >= 0) {
+                        sep_one(*st, s, sep, *ssep, held.write(sep), next_ci, next_op, next_form, SEP_OPS[next_op].reff(s, sep, next_ci), got);
+                        vrt::count("same_storage.sep.first_call_on_successor_pairs_with_last_call_on_predecessor");
+                        if (next_form == F_CHAR && N >= 256) vrt::count("same_storage.sep.char_form_pair_on_subject>=256");
+                    }
+                    SepOrder ord;
+                    const unsigned seq = static_cast<unsigned>(r.below(4));          // sep, sep2 | sep2, sep | sep | sep2, sep, sep2
+                    for (unsigned v = 0; v < 3; ++v) {
+                        const bool second = seq == 0 ? v == 1 : seq == 1 ? v == 0 : seq == 2 ? false : v != 1;
+                        if ((seq == 0 || seq == 1) && v == 2) break;
+                        if (seq == 2 && v > 0) break;
+                        ord.shuffle = r.next() | 1;
+                        sep_ops(*st, s, second ? sep2 : sep, r.chance(1, 3), held.write(second ? sep2 : sep), &ord);
+                        vrt::count("same_storage.caller_block_rewritten_in_place");
+                    }
+                    // the last call on this content: an operation whose partner goes first on the successor
+                    if (c + 1 < ncontents) {
+                        const unsigned T = trans[c + 1];
+                        int X, Y;
+                        if (r.chance(1, 4) || T == CLEAR_ALL || T == RANDOM_SET) { X = static_cast<int>(r.below(4)); Y = (X + 1 + static_cast<int>(r.below(3))) % 4; }
+                        else { const int fam = (T == ADD_EARLIER || T == DROP_FIRST) ? 0 : 2; X = fam + static_cast<int>(r.below(2)); Y = fam + 1 - (X - fam); }
+                        const int F = (L == 1 && r.chance(1, 2)) ? F_CHAR : static_cast<int>(r.below(3));
+                        const bool ci = r.chance(1, 4);
+                        sep_one(*st, s, sep, *ssep, held.write(sep), ci, X, F, SEP_OPS[X].reff(s, sep, ci), got);
+                        next_op = Y; next_form = F; next_ci = ci;
+                    }
+                    if (vrt::str_of(**st) != s) vrt::violation("C08:before_after:subject-changed", scale::brief(s));
+                }
+                vrt::count("same_storage.sep.cases");
+                if (vrt::want_sample("same_storage.sep") && N >= 256)
+                    vrt::sample("same_storage.sep", sfmt("%zu contents of %zu bytes one after the other in the same storage (same first and last %zu bytes), separators %s / %s of %zu bytes in one caller block rewritten in place, occurrences at some of the offsets %zu..%zu",
+                                                         ncontents, N, shared, show(sep).c_str(), show(sep2).c_str(), L, slot.front(), slot.back()));
+            } else if (kind == SS_TRIM) {
+                static const char *const setpairs[][2] = {{" ", "x"}, {" \t", "xy"}, {"_-", ".,"}, {"\xe9\x80", " \t"}, {" \t\r\n", "abcd"},
+                                                          {"0123456789abcdef", "ghijklmnopqrstuv"}, {" \t\r\n", "\xa0\x85\x0b\x0c"}};
+                const size_t pi = r.below(sizeof(setpairs) / sizeof(setpairs[0]));
+                const S A = setpairs[pi][0], B = setpairs[pi][1], C = A.substr(0, A.size() / 2) + B.substr(A.size() / 2);
+                S non;
+                for (int ch = 0; ch < 256; ++ch) if (!ref::in_set(A, static_cast<char>(ch)) && !ref::in_set(B, static_cast<char>(ch))) non += static_cast<char>(ch);
+                S core_alpha = A + B;
+                for (int k = 0; k < 4; ++k) core_alpha += non[r.below(non.size())];
+                const S head = gen::bytes_over(r, shared, A), tail = gen::bytes_over(r, shared, A);
+                Placed held(A.size(), static_cast<unsigned>(r.below(16)));
+                const size_t budget = std::min<size_t>(W / 3, 300);
+                for (size_t c = 0; c < ncontents; ++c) {
+                    // head | a1 x A | b1 x B | a2 x A | core (first and last byte outside both sets) | a3 x A | b2 x B | a4 x A | tail
+                    S s = head;
+                    if (r.chance(1, 10)) s += gen::bytes_over(r, W, r.chance(1, 2) ? A : A + B);       // nothing but members
+                    else {
+                        size_t run[6], left = budget;
+                        for (int k = 0; k < 3; ++k) { run[k] = r.below(left + 1); left -= run[k]; }
+                        left = budget;
+                        for (int k = 3; k < 6; ++k) { run[k] = r.below(left + 1); left -= run[k]; }
+                        const size_t lead = run[0] + run[1] + run[2], trail = run[3] + run[4] + run[5];
+                        s += gen::bytes_over(r, run[0], A) + gen::bytes_over(r, run[1], B) + gen::bytes_over(r, run[2], A);
+                        S core = gen::bytes_over(r, W - lead - trail, core_alpha);
+                        core[0] = non[r.below(non.size())];
+                        core[core.size() - 1] = non[r.below(non.size())];
+                        s += core;
+                        s += gen::bytes_over(r, run[3], A) + gen::bytes_over(r, run[4], B) + gen::bytes_over(r, run[5], A);
+                    }
+                    s += tail;
+                    rebuild(s);
+                    vrt::cur_mark() = mark0;
+                    vrt::cur_rewind();
+                    vrt::cur_printf("same_storage: content %zu of %zu, subject %s\n", c, ncontents, scale::brief(s).c_str());
+                    vrt::cur_mark_here();
+                    const S *sets[3] = {&A, &B, &C};
+                    for (size_t k = 3; k > 1; --k) std::swap(sets[k - 1], sets[r.below(k)]);
+                    S g1, g2;
+                    for (int k = 0; k < 3; ++k) {
+                        trim_ops(*st, s, sets[k]->c_str(), held.write(*sets[k]), static_cast<unsigned>(r.below(6)), k == 0 ? &g1 : nullptr);
+                        vrt::count("same_storage.caller_block_rewritten_in_place");
+                        if (k == 1 && r.chance(1, 3)) trim_ops(*st, s, nullptr, nullptr, static_cast<unsigned>(r.below(6)));
+                    }
+                    // trim after trim with another character set
+                    trim_check(g1, sets[1]->c_str(), &g2);
+                    trim_check(g2, sets[r.below(3)]->c_str());
+                    vrt::count("same_storage.trim.chained");
+                }
+                vrt::count("same_storage.trim.cases");
+            } else {
+                const S al = r.chance(1, 3) ? S("ab") : S();
+                S base(N, '\0');
+                for (auto &ch : base) ch = al.empty() ? static_cast<char>(r.below(256)) : al[r.below(al.size())];
+                const long n = static_cast<long>(N), sh = static_cast<long>(shared);
+                std::vector<std::pair<long, size_t>> sc;
+                for (int k = 0; k < 8; ++k) {
+                    const long starts[] = {0, 1, sh, n / 2, n - sh, n - 1, n, n + 1, -1, -sh, -n / 2, -n, static_cast<long>(r.range(-n - 2, n + 2))};
+                    const long start = r.pick(starts);
+                    const size_t counts[] = {0, 1, shared, N / 2, N, SMAX, SMAX - static_cast<size_t>(start), static_cast<size_t>(r.below(N + 2))};
+                    sc.emplace_back(start, r.pick(counts));
+                }
+                std::vector<size_t> ks;
+                for (int k = 0; k < 5; ++k) {
+                    const size_t cand[] = {0, 1, shared, N / 2, N - shared, N - 1, N, N + 1, 2 * N, SMAX, static_cast<size_t>(r.below(N + 3))};
+                    ks.push_back(r.pick(cand));
+                }
+                for (size_t c = 0; c < ncontents; ++c) {
+                    S s = base;
+                    for (size_t k = shared; k < N - shared; ++k) s[k] = al.empty() ? static_cast<char>(r.below(256)) : al[r.below(al.size())];
+                    rebuild(s);
+                    std::vector<size_t> order(sc.size() + ks.size());
+                    for (size_t k = 0; k < order.size(); ++k) order[k] = k;
+                    for (size_t k = order.size(); k > 1; --k) std::swap(order[k - 1], order[r.below(k)]);
+                    for (size_t k : order) {
+                        if (k < sc.size()) substr_check(*st, s, sc[k].first, sc[k].second);
+                        else left_right_check(*st, s, ks[k - sc.size()]);
+                    }
+                    if (vrt::str_of(**st) != s) vrt::violation("C08:substr:subject-changed", scale::brief(s));
+                }
+                vrt::count("same_storage.slice.cases");
+            }
+            st.reset();
+            vrt::count("same_storage.cases");
+            if (N >= 256) vrt::count("same_storage.subject>=256");
+        });
+    }
+
+    // ---- 8. soak: tens of thousands of consecutive calls of every family inside ONE case (one process, one thread) on subjects above the
+    // usual thresholds (64..300 bytes, separators up to 30 bytes), so that state kept between calls - a memo of the last subject, a
+    // call counter that enables a fast path, a table with a generation number - goes through its whole cycle.  Every call is compared
+    // with the reference as everywhere else.  Now and then a run of 64..300 "boring" calls (the same pure-ASCII object, the same
+    // arguments, no occurrence, nothing to trim) is followed directly by a same-sized successor at the same address in which the
+    // occurrence / the byte to trim / the non-ASCII bytes sit in the last few bytes.
+    {
+        const double sc = std::min(1.0, vrt::opt().scale);
+        // a thorough run has more of these cases, not longer ones (a case stays a few seconds of CPU)
+        const uint64_t soak_cases = vrt::thorough() ? 128 : 16;
+        const size_t soak_iters = static_cast<size_t>(vrt::tier_count(72000, 100000));
+        vrt::require("soak.sep.calls", soak_cases * soak_iters * 2 * 9 / 10);
+        vrt::require("soak.trim.calls", soak_cases * soak_iters * 3 * 9 / 10);
+        vrt::require("soak.slice.calls", soak_cases * soak_iters * 3 * 9 / 10);
+        vrt::require("soak.boring_runs", soak_cases * soak_iters / 3000);
+        vrt::require("soak.separators_with_a_rare_byte", soak_cases * soak_iters / 3000);
+        vrt::phase("soak", soak_cases, [&](uint64_t, Rng &r) {
+            const size_t iters = soak_iters;
+            static const char core[] = "abcdefgh";
+            static const char *const sets[] = {nullptr, " \t", "x", "_-", "\xa0\xe9", " \t\r\n\v\f"};
+            struct Args {
+                S sep;
+                int w1, w2, form;
+                bool ci;
+                const char *cs;
+                unsigned torder;
+                long start;
+                size_t count, k;
+            } a;
+            std::optional<vrt::Box<ST::string>> st;
+            S s, got;
+            uint64_t n_sep = 0, n_trim = 0, n_slice = 0;
+            size_t boring_left = 0;
+            auto run_ops = [&]() {
+                const bool need_str = a.form == F_STR;
+                vrt::Box<ST::string> ssep(vrt::mk(need_str ? a.sep : S()));
+                vrt::Exact<char> held(a.sep.data(), a.sep.size(), true);
+                sep_one(*st, s, a.sep, *ssep, held.data(), a.ci, a.w1, a.form, SEP_OPS[a.w1].reff(s, a.sep, a.ci), got);
+                sep_one(*st, s, a.sep, *ssep, held.data(), a.ci, a.w2, a.form, SEP_OPS[a.w2].reff(s, a.sep, a.ci), got);
+                trim_ops(*st, s, a.cs, nullptr, a.torder);
+                substr_check(*st, s, a.start, a.count);
+                left_right_check(*st, s, a.k);
+                n_sep += 2; n_trim += 3; n_slice += 3;
+            };
+            for (size_t it = 0; it < iters; ++it) {
+                if (boring_left > 0) {
+                    if (--boring_left > 0) { run_ops(); continue; }
+                    // the call right after the run: same size, same address, same arguments - and something in the last few bytes
+                    const size_t n = s.size(), L = a.sep.size();
+                    const unsigned what = static_cast<unsigned>(1 + r.below(15));
+                    if (what & 1) s.replace(n - L - r.below(7), L, a.sep);
+                    if (what & 2) { const size_t t = 1 + r.below(7); for (size_t k = n - t; k < n; ++k) s[k] = static_cast<char>(0xC3 + r.below(4)); }
+                    if (what & 4) { const S set = a.cs ? S(a.cs) : S(" \t\r\n"); s[n - 1] = set[r.below(set.size())]; if (r.chance(1, 2)) s[0] = set[r.below(set.size())]; }
+                    if (what & 8) s.replace(r.below(3), L, a.sep);
+                    vrt::placement_force_parks() = 4;
+                    st.reset();
+                    st.emplace(vrt::mk(s));
+                    vrt::placement_force_parks() = 0;
+                    run_ops();
+                    vrt::count("soak.boring_runs");
+                    continue;
+                }
+                const bool boring = r.chance(1, 400);
+                const bool rare = !boring && r.chance(1, 500);
+                const size_t L = rare ? 12 + r.below(19) : r.chance(1, 3) ? 1 : 2 + r.below(10);
+                a.sep.clear();
+                for (size_t k = 0; k < L; ++k) a.sep += core[r.below(8)];
+                if (rare) { a.sep[r.below(L)] = static_cast<char>(0xA0 + r.below(80)); vrt::count("soak.separators_with_a_rare_byte"); }
+                a.ci = r.chance(1, 5);
+                a.w1 = static_cast<int>(r.below(4));
+                a.w2 = (a.w1 + 1 + static_cast<int>(r.below(3))) % 4;
+                a.form = static_cast<int>(it % 4);
+                if (a.form == F_CHAR && L != 1) a.form = F_CSTR;
+                a.cs = sets[r.below(sizeof(sets) / sizeof(sets[0]))];
+                a.torder = static_cast<unsigned>(r.below(6));
+                const size_t hlen = (r.chance(1, 8) ? 16 : 64) + L + r.below(237);
+                s.clear();
+                if (boring) {
+                    for (size_t k = 0; k < hlen; ++k) s += "mnopqrst"[r.below(8)];
+                    boring_left = 64 + r.below(237);
+                } else {
+                    const S set = a.cs ? S(a.cs) : S(" \t\r\n");
+                    const size_t lead = r.chance(1, 2) ? r.below(12) : 0, trail = r.chance(1, 2) ? r.below(12) : 0;
+                    for (size_t k = 0; k < hlen; ++k) {
+                        if (k < lead || k >= hlen - trail) s += set[r.below(set.size())];
+                        else s += r.chance(1, 4) ? static_cast<char>(0xA0 + r.below(80)) : core[r.below(8)];
+                    }
+                    const unsigned shape = static_cast<unsigned>(r.below(8));
+                    const size_t at = r.below(hlen - L + 1);
+                    if (shape != 0) s.replace(at, L, a.ci && r.chance(1, 2) ? ref::uppered(a.sep) : a.sep);
+                    if (shape == 1) s[at + r.below(L)] = '#';                                         // near-miss only
+                    if (shape == 2 && at > L + 2) s.replace(r.below(at - L), L, a.sep);              // an earlier occurrence as well
+                    if (shape == 3 && at + 2 * L + 2 < hlen) s.replace(at + L + r.below(hlen - at - 2 * L), L, a.sep);   // a later one as well
+                }
+                a.start = static_cast<long>(r.range(-static_cast<long>(hlen) - 2, static_cast<long>(hlen) + 2));
+                a.count = r.chance(1, 4) ? SMAX : r.below(hlen + 3);
+                a.k = r.below(hlen + 3);
+                st.reset();
+                st.emplace(vrt::mk(s));
+                run_ops();
+            }
+            st.reset();
+            vrt::count("soak.sep.calls", n_sep);
+            vrt::count("soak.trim.calls", n_trim);
+            vrt::count("soak.slice.calls", n_slice);
+            vrt::distinct(vrt::fnv_u64(r.next(), 98));
+            if (vrt::want_sample("soak"))
+                vrt::sample("soak", sfmt("%zu consecutive subjects in one process, each through 2 before_/after_ calls, trim_left / trim_right / trim, substr, left, right; last: subject %s sep=%s",
+                                         iters, scale::brief(s).c_str(), show(a.sep).c_str()));
+        });
+    }
+
+    // ---- 9. align: separators of 8..250 bytes handed over as const char* / const char8_t* at every start address modulo 16, in both case
+    // modes, on subjects holding NEAR-MISSES: copies of the separator that differ from it at exactly one index j (every j in turn) by
+    // more than letter case, by letter case only, or by letter case at j and by more than case further on - one in front of the real
+    // occurrence (if any) and one behind it, each at an address congruent or not congruent to the separator's address modulo 8.
+    // The same separator bytes also serve as a trim character set at that address.
+    {
+        const double sc = std::min(1.0, vrt::opt().scale);
+        vrt::require("align.subjects", static_cast<uint64_t>(12000 * sc));
+        vrt::require("align.near_miss_congruent_mod_8", static_cast<uint64_t>(5000 * sc));
+        vrt::require("align.near_miss_not_congruent_mod_8", static_cast<uint64_t>(5000 * sc));
+        vrt::require("align.separator_not_8_byte_aligned", static_cast<uint64_t>(8000 * sc));
+        vrt::require("align.difference_by_case_in_first_8_minus_addr_mod_8_bytes", static_cast<uint64_t>(600 * sc));
+        vrt::require("align.difference_in_the_7_bytes_before_last_multiple_of_8", static_cast<uint64_t>(600 * sc));
+        static const size_t lens[] = {8, 9, 12, 15, 16, 17, 20, 23, 24, 25, 31, 32, 33, 36, 39, 40, 41, 47, 48, 49, 56, 63, 64, 65, 100, 128, 131, 250};
+        const size_t NL = sizeof(lens) / sizeof(lens[0]);
+        vrt::phase("align", vrt::tier_count(16 * NL, 16 * NL * 20), [&](uint64_t i, Rng &r) {
+            const uint64_t g = (i * 7919) % (16 * NL);          // walks the whole grid alignment x length, in an order that a short run samples evenly
+            const unsigned al = static_cast<unsigned>(g % 16);
+            const size_t n = lens[g / 16];
+            static const char letters[] = "abcdefghijklmnopqrstuvwxyzABCDEFGHIJKLMNOPQRSTUVWXYZ";
+            S sep(n, '\0');
+            for (auto &ch : sep) ch = r.chance(1, 8) ? "-_#+"[r.below(4)] : letters[r.below(52)];
+            static const char *const bgs[] = {"0123456789", " .,;", "\xe9\xeb", "@[`{", "0"};
+            const S bg = r.pick(bgs);
+            Placed held(n, al);
+            held.write(sep);
+            const uintptr_t sa = reinterpret_cast<uintptr_t>(held.p);
+            // the index that differs: every one for separators up to 64 bytes; for longer ones the first and the last 17, those around
+            // the last multiple of 8 and a dozen others
+            std::vector<size_t> js;
+            for (size_t j = 0; j < n; ++j)
+                if (n <= 64 || j < 17 || j + 17 >= n || j + 9 >= 8 * (n / 8)) js.push_back(j);
+            for (int k = 0; n > 64 && k < 12; ++k) js.push_back(17 + r.below(n - 34));
+            for (size_t j : js) {
+                for (unsigned kind = 0; kind < NM_KINDS; ++kind) {
+                    S m1, m2;
+                    const bool mixed = r.chance(1, 2);
+                    if (!near_miss(r, sep, j, kind, mixed, m1) || !near_miss(r, sep, j, kind, mixed, m2)) { vrt::count("align.index_cannot_differ_that_way"); continue; }
+                    const unsigned w1 = (al + (r.chance(1, 2) ? 0 : 1 + r.below(7))) % 8, w2 = (al + (r.chance(1, 2) ? 0 : 1 + r.below(7))) % 8;
+                    const size_t o1 = 8 * r.below(3) + w1;
+                    S h = gen::bytes_over(r, o1, bg);
+                    h += m1;
+                    h += gen::bytes_over(r, r.below(12), bg);
+                    const unsigned occ = static_cast<unsigned>(r.below(3));          // no real occurrence / exact / in another case
+                    if (occ) h += occ == 1 ? sep : random_case(r, sep);
+                    h += gen::bytes_over(r, r.below(12), bg);
+                    while (h.size() % 8 != w2) h += bg[r.below(bg.size())];
+                    const size_t o2 = h.size();
+                    h += m2;
+                    h += gen::bytes_over(r, r.below(10), bg);
+                    vrt::Box<ST::string> st(vrt::mk(h));
+                    const uintptr_t hb = reinterpret_cast<uintptr_t>(st->c_str());
+                    vrt::count((hb + o1 - sa) % 8 == 0 ? "align.near_miss_congruent_mod_8" : "align.near_miss_not_congruent_mod_8");
+                    vrt::count((hb + o2 - sa) % 8 == 0 ? "align.near_miss_congruent_mod_8" : "align.near_miss_not_congruent_mod_8");
+                    sep_ops(st, h, sep, false, held.p);
+                    sep_ops(st, h, sep, true, held.p);
+                    vrt::count("align.subjects");
+                    if (sa % 8) vrt::count("align.separator_not_8_byte_aligned");
+                    if (kind != NM_HARD && sa % 8 && j < 8 - sa % 8) vrt::count("align.difference_by_case_in_first_8_minus_addr_mod_8_bytes");
+                    if (kind == NM_HARD && j < 8 * (n / 8) && j + 7 >= 8 * (n / 8)) vrt::count("align.difference_in_the_7_bytes_before_last_multiple_of_8");
+                    if (vrt::want_sample("align") && kind == NM_CASE_THEN_HARD && j == 2 && al % 8)
+                        vrt::sample("align", sfmt("subject=%s sep=%s at an address = %u mod 16: near-misses at offsets %zu and %zu differ from it at index %zu (%s)",
+                                                  show(h).c_str(), show(sep).c_str(), al, o1, o2, j, "letter case there, another byte further on"));
+                }
+            }
+            // the same bytes as a character set for trim at that address: runs of members, then a byte that is no member but the other
+            // case of one / a neighbour of one
+            for (int rep = 0; rep < 8; ++rep) {
+                auto outsider = [&]() {
+                    for (int tries = 0; tries < 32; ++tries) {
+                        const char m = sep[r.below(n)], c = r.chance(1, 2) ? other_case(m) : different_byte(r, m);
+                        if (!ref::in_set(sep, c)) return c;
+                    }
+                    return '0';
+                };
+                S s = gen::bytes_over(r, r.below(40), sep);
+                s += outsider();
+                s += gen::bytes_over(r, r.below(20), sep + bg);
+                s += outsider();
+                s += gen::bytes_over(r, r.below(40), sep);
+                vrt::Box<ST::string> st(vrt::mk(s));
+                trim_ops(st, s, sep.c_str(), held.p, static_cast<unsigned>(r.below(6)));
+                vrt::count("align.trim_subjects");
+            }
+            vrt::count("align.cases");
+        });
+    }
+
     // slices of 256 MiB and more out of a string longer than that (such strings come from the library's own non-validating
     // producers): about 3 s and 0.8 GB, one case
     if (vrt::opt().scale >= 1.0) {
